@@ -15,6 +15,10 @@ WORK = VERIF / ".work"
 JAR_CP = "/opt/veriftools/tla/tla2tools.jar:/opt/veriftools/tla/CommunityModules-deps.jar"
 
 
+import itertools
+_COUNTER = itertools.count()
+
+
 class MachineryError(Exception):
     """TLC failed for a reason that is not a property verdict (exit code 2 of ./check)."""
 
@@ -57,7 +61,7 @@ def run_tlc(module, cfg=None, *, workdir, env=None, workers=16, timeout=900, sim
     workdir.mkdir(parents=True, exist_ok=True)
     mod_path = SPEC / (module + ".tla")
     cfg_path = Path(cfg) if cfg and os.sep in str(cfg) else SPEC / ((cfg or module) + ".cfg")
-    tag = f"{module}_{os.getpid()}_{int(time.time() * 1000) % 100000000}"
+    tag = f"{module}_{os.getpid()}_{int(time.time() * 1000) % 100000000}_{next(_COUNTER)}"
     metadir = workdir / ("meta_" + tag)
     out_path = workdir / (tag + ".out")
     cmd = ["java", "-XX:+UseParallelGC", f"-Xmx{heap}"]
